@@ -435,7 +435,7 @@ func (e *Exec) encode(v Value, t types.Type) JVal {
 			}
 			res := e.callFn(nil, m, []Value{v}, nil).(Tuple)
 			if errI := res[1].(Iface); errI.T != nil {
-				panic(jsonErr{"error calling MarshalJSON for type " + t.String()})
+				panic(jsonErr{"error calling MarshalJSON for type " + t.String() + ": " + e.fmtVal(errI, 'v')})
 			}
 			jv := e.textValue(res[0].(Slice))
 			if bad, ok := jv.(JBad); ok {
@@ -790,7 +790,14 @@ func (e *Exec) parseRope(rope []RopePiece) JVal {
 		switch x := v.(type) {
 		case *JObj:
 			for i := range x.M {
-				k, _ := substStr(x.M[i].K.S)
+				k, kv := substStr(x.M[i].K.S)
+				if kv != nil {
+					ks, isStr := kv.(JStr)
+					if !isStr {
+						return JBad{Why: "object key is not a string"}
+					}
+					k = ks.S
+				}
 				x.M[i].K = k
 				x.M[i].V = subst(x.M[i].V)
 			}
